@@ -16,7 +16,7 @@ from vf.core import CaseResult, Ctx, Violation, hyp_run, exc_sig
 
 PROP_ID = 'C39'
 LEVEL = 'exploration'
-BUDGET = {'quick': 16000, 'thorough': 800000}
+BUDGET = {'quick': 16000, 'thorough': 480000}
 RULE = (
     'Hypothesis draws a name either (50%) as 1-7 path components joined by '
     '"/" -- components from: plain words, unicode words, ".", "..", "", the '
